@@ -574,7 +574,7 @@ theorem nested_excludes_witness_schedule : ¬ respects (init (memProgWith true) 
   decide
 
 /-- … and for the CURRENT source: if its shape table shows two separate sections, the full statement
-    is false of `lockProg .mem` (this is the open finding); if it shows the nested form, the same
+    is false of `lockProg .mem` (this is finding `mem-snapshot-two-locks`); if it shows the nested form, the same
     schedule is not admitted and `mem_linearizable_of_nested_shape` applies -/
 theorem current_two_sections_not_linearizable (h : memSnapNested = false) : ¬ C19_mem_snapshot_full (lockProg .mem) := by
   have e : lockProg .mem = memProgWith false := by show memProgWith memSnapNested = _; rw [h]
